@@ -104,13 +104,15 @@ def run(ctx):
                    "" if ok else f"returns {r.ret}: an explicit policy (or the configured default) is replaced", witness=r.witness(), node=fint.node)
         else:
             ok = op in ("new:cls", "new:Retry")
-            first = args[0] if args else ""
+            from ..rows import bind as _bind
+            b_ = _bind(m.method(RETRY, "__init__").params(), list(args))
+            first = b_.get("total", "")  # positional or by keyword
             ok = bool(ok) and (first == want_src if want_src else "DEFAULT" in first)
             ctx.ob(R1, fint.qual, f"from_int: a non-Retry value is converted from {'the retries argument' if want_src == pr else 'the default' if want_src == pd else 'the class default'}", ok,
                    "" if ok else f"returns {r.ret}: None must fall back to the default, then to Retry.DEFAULT", witness=r.witness(), node=fint.node)
             # the redirect flag: truthy -> None (the redirect budget is left to total), falsy -> False (no redirects)
             t = r.truth(prd)
-            rd = [a for a in args if a.startswith("redirect=")]
+            rd = ["redirect=" + b_["redirect"]] if "redirect" in b_ else []
             want = {True: ("redirect=None",), False: ("redirect=False",)}.get(t, ())
             okr = bool(rd) and rd[0] in want
             ctx.ob(R3_from_int(ctx), fint.qual, f"from_int: redirect flag truthy={t} -> {rd[0] if rd else 'missing'}", okr,
